@@ -1104,7 +1104,9 @@ def unit_reader(ctx, harness, stats):
         rec = gnu_long(tfx, nm)                              # header + payload + padding
         plen = len(nm) + 1
         padl = (-plen) % 512
-        cuts = {512 + rng.randint(1, plen - 1), 512 + plen}                                      # inside the payload / all padding missing
+        cuts = {512 + rng.randint(1, plen - 1)}                                                  # inside the payload
+        if padl:
+            cuts.add(512 + plen)                                                                 # all padding missing
         if padl > 1:
             cuts |= {len(rec) - 1, len(rec) - rng.randint(1, padl - 1), 512 + plen + 1}          # inside the padding
         partial += [(rec[:c], "err") for c in sorted(cuts)]
